@@ -50,8 +50,8 @@ FAULT_OPS = ("gc", "alloc", "pool")
 PROBES = [
     "reused_address_still_cached", "legit_cache_hit_possible", "eviction_ran",
     "process_pool_used", "lookalike_neighbours_in_batch",
-    "second_fit_same_reactor", "nested_parallel", "crash_mid_fit",
-    "cluster_batched", "validate_parallel", "validate_tautomer_sensitive_pair", "validate_aromaticity_sensitive_pair", "balance_parallel", "crn_parallel",
+    "second_fit_same_reactor", "entry_dict_edited_between_fits", "nested_parallel", "crash_mid_fit",
+    "cluster_batched", "validate_parallel", "validate_tautomer_sensitive_pair", "validate_aromaticity_sensitive_pair", "dataframe_with_permuted_index", "balance_parallel", "crn_parallel",
 ]
 REAL = ["synkit.Synthesis.Reactor.batch_reactor (BatchReactor, _RuleApplier, _apply_rule_raw)",
         "synkit.Synthesis.Reactor.syn_reactor.SynReactor and everything beneath (matcher, ITS gluing, RDKit)",
@@ -262,6 +262,10 @@ def generate(seed: int, tier: str = "quick") -> Dict[str, Any]:
             c = rng.random()
             if c < 0.12:
                 ops.append(gen_configure(rng.choice([0, 0, 1])))
+            elif c < 0.2:
+                # the caller edits one of ITS OWN entry dicts between two fits (the reactor keeps the dicts it was given)
+                ops.append({"op": "edit_entry", "s": s(), "reactor": rng.choice([0, 0, 1]), "idx": rng.randrange(12),
+                            "new": rng.randrange(len(subs))})
             else:
                 ops.append(gen_fit(rng.choice([0, 0, 0, 1])))
     return {"cfg": {"kind": kind}, "ops": ops}
@@ -333,7 +337,7 @@ def _run(case: Dict[str, Any], sim: Sim, world: World) -> None:
                           dedupe=op["dedupe"], entry_n_jobs=op["entry_jobs"], rule_n_jobs=op["rule_jobs"],
                           parallel_rules=op["parallel_rules"], allow_nested=op["allow_nested"],
                           cache_enabled=op["cache"], cache_maxsize=op["maxsize"], enable_logging=False)
-        reactors[slot] = {"br": br, "cfg": op, "entries": ent, "fits": 0}
+        reactors[slot] = {"br": br, "cfg": op, "entries": ent, "fits": 0, "data": data}
         fams = {e.split(".")[-1] for e in ent}
         if len(set(ent)) > 1 and len(fams) < len(set(ent)):
             sim.probe("lookalike_neighbours_in_batch")
@@ -420,6 +424,11 @@ def _run(case: Dict[str, Any], sim: Sim, world: World) -> None:
             if o.get("count") != len(got):
                 raise Violation(PROP, "BatchReactor.fit", "count_mismatch", cond, {"count": o.get("count"), "len": len(got)})
             summary.append(len(got))
+        for o in out:                                  # returned lists belong to the caller: editing them must not matter later
+            if isinstance(o, dict):
+                for v_ in o.values():
+                    if isinstance(v_, list):
+                        v_.clear()
         sim.state(("fit", cfg["cache"], min(cfg["maxsize"], 9), min(cfg["entry_jobs"], 3), cfg["parallel_rules"],
                    cfg["strategy"], cfg["mode"], op["invert"], tuple(sorted(set(names))), tuple(sorted(set(R["entries"])))))
         sim.event("fit", {"slot": slot, "rules": names, "inv": op["invert"], "n_out": summary})
@@ -432,6 +441,15 @@ def _run(case: Dict[str, Any], sim: Sim, world: World) -> None:
             configure(op)
         elif k == "fit":
             fit(op)
+        elif k == "edit_entry":
+            R = reactors.get(op["reactor"] % 2)
+            if R is not None and R["cfg"]["as_dict"] and R["entries"]:
+                i_ = op["idx"] % len(R["entries"])
+                new_s = subs[op["new"] % len(subs)]
+                R["data"][i_]["smi"] = new_s          # in-place edit of the caller's own dict
+                R["entries"][i_] = new_s
+                sim.probe("entry_dict_edited_between_fits")
+            sim.event("edit_entry", None)
         elif k == "gc":
             n = world.main_alloc.collect()
             sim.event("gc", None)
